@@ -716,6 +716,206 @@ func literals(f *ssa.Function) []string {
 	return out
 }
 
+// ---- receiver locality (used by F9) ------------------------------------------------------------------------------------
+// A store through a pointer receiver matters to F9 only when the object can outlive the call. receiverStaysLocal(m) is true
+// when every object the pointer-receiver method m can ever be called on is a local variable of one function activation that
+// is never stored anywhere, returned, captured, converted to an interface or passed to anything but pointer-receiver methods
+// of the same type (which are checked the same way). Anything it cannot see through makes it answer false.
+var recvLocalMemo = map[*ssa.Function]bool{}
+
+func pointerStaysLocal(v ssa.Value, named *types.Named, visiting map[ssa.Value]bool) bool {
+	if visiting[v] {
+		return true
+	}
+	visiting[v] = true
+	refs := v.Referrers()
+	if refs == nil {
+		return false
+	}
+	var fieldOK func(a ssa.Value) bool
+	fieldOK = func(a ssa.Value) bool {
+		rs := a.Referrers()
+		if rs == nil {
+			return false
+		}
+		for _, r := range *rs {
+			switch x := r.(type) {
+			case *ssa.DebugRef:
+			case *ssa.Store:
+				if x.Addr != a || x.Val == a {
+					return false
+				}
+			case *ssa.UnOp:
+				if x.Op != token.MUL {
+					return false
+				}
+			case *ssa.FieldAddr:
+				if !fieldOK(x) {
+					return false
+				}
+			case *ssa.IndexAddr:
+				if _, isArr := x.X.Type().Underlying().(*types.Pointer); !isArr || !fieldOK(x) {
+					return false
+				}
+			default:
+				return false
+			}
+		}
+		return true
+	}
+	for _, r := range *refs {
+		switch x := r.(type) {
+		case *ssa.DebugRef:
+		case *ssa.Store:
+			if x.Addr != v || x.Val == v {
+				return false
+			}
+		case *ssa.UnOp:
+			if x.Op != token.MUL {
+				return false
+			}
+		case *ssa.FieldAddr:
+			if !fieldOK(x) {
+				return false
+			}
+		case *ssa.MakeClosure:
+			// captured by a function literal: the literal can do with the variable only what its body does
+			fn, ok := x.Fn.(*ssa.Function)
+			if !ok {
+				return false
+			}
+			for i, bnd := range x.Bindings {
+				if bnd == v {
+					if i >= len(fn.FreeVars) || !pointerStaysLocal(fn.FreeVars[i], named, visiting) {
+						return false
+					}
+				}
+			}
+		case ssa.CallInstruction:
+			c := x.Common()
+			callee := c.StaticCallee()
+			if callee == nil || len(c.Args) == 0 || c.Args[0] != v || callee.Signature.Recv() == nil || len(callee.Params) == 0 || callee.Blocks == nil {
+				return false
+			}
+			for _, a := range c.Args[1:] {
+				if a == v {
+					return false
+				}
+			}
+			pt, isPtr := callee.Params[0].Type().(*types.Pointer)
+			if !isPtr || !types.Identical(pt.Elem(), named) {
+				return false
+			}
+			if !pointerStaysLocal(callee.Params[0], named, visiting) {
+				return false
+			}
+		default:
+			return false
+		}
+	}
+	return true
+}
+
+func receiverStaysLocal(prog *ssa.Program, m *ssa.Function, modFns []*ssa.Function) bool {
+	if r, ok := recvLocalMemo[m]; ok {
+		return r
+	}
+	res := func() bool {
+		if m.Signature.Recv() == nil || len(m.Params) == 0 {
+			return false
+		}
+		pt, isPtr := m.Params[0].Type().(*types.Pointer)
+		if !isPtr {
+			return false
+		}
+		named, ok := pt.Elem().(*types.Named)
+		if !ok || named.Obj().Exported() {
+			return false // values of an exported type can be made and kept by other packages
+		}
+		sites := 0
+		for _, f := range modFns {
+			for _, b := range f.Blocks {
+				for _, ins := range b.Instrs {
+					if mi, ok := ins.(*ssa.MakeInterface); ok {
+						t := mi.X.Type()
+						if p2, ok := t.(*types.Pointer); ok {
+							t = p2.Elem()
+						}
+						if types.Identical(t, named) {
+							return false // may be called through an interface
+						}
+					}
+					if ci, ok := ins.(ssa.CallInstruction); ok && ci.Common().StaticCallee() == m {
+						c := ci.Common()
+						recvArg := c.Args[0]
+						for hops := 0; hops < 8; hops++ { // a captured variable: the variable of the enclosing function
+							fv, isFV := recvArg.(*ssa.FreeVar)
+							if !isFV || fv.Parent() == nil || fv.Parent().Parent() == nil {
+								break
+							}
+							var bound ssa.Value
+							for _, pb := range fv.Parent().Parent().Blocks {
+								for _, pi := range pb.Instrs {
+									if mc, ok := pi.(*ssa.MakeClosure); ok && mc.Fn == ssa.Value(fv.Parent()) {
+										for k, v2 := range fv.Parent().FreeVars {
+											if v2 == fv && k < len(mc.Bindings) {
+												bound = mc.Bindings[k]
+											}
+										}
+									}
+								}
+							}
+							if bound == nil {
+								break
+							}
+							recvArg = bound
+						}
+						alloc, isAlloc := recvArg.(*ssa.Alloc)
+						if !isAlloc {
+							if par, isPar := c.Args[0].(*ssa.Parameter); isPar && f.Signature.Recv() != nil && len(f.Params) > 0 && f.Params[0] == par {
+								// called on the caller's own receiver: local iff the caller's receiver is
+								if f != m && !receiverStaysLocalGuard(prog, f, modFns) {
+									return false
+								}
+								sites++
+								continue
+							}
+							return false
+						}
+						if !pointerStaysLocal(alloc, named, map[ssa.Value]bool{}) {
+							return false
+						}
+						sites++
+						continue
+					}
+					for _, op := range ins.Operands(nil) {
+						if op != nil && *op == ssa.Value(m) {
+							if ci, ok := ins.(ssa.CallInstruction); ok && ci.Common().Value == ssa.Value(m) {
+								continue
+							}
+							return false // used as a value (method value, go / defer through a variable, ...)
+						}
+					}
+				}
+			}
+		}
+		return sites > 0
+	}()
+	recvLocalMemo[m] = res
+	return res
+}
+
+var recvLocalBusy = map[*ssa.Function]bool{}
+
+func receiverStaysLocalGuard(prog *ssa.Program, m *ssa.Function, modFns []*ssa.Function) bool {
+	if recvLocalBusy[m] {
+		return true
+	}
+	recvLocalBusy[m] = true
+	defer delete(recvLocalBusy, m)
+	return receiverStaysLocal(prog, m, modFns)
+}
+
 func allFunctions(prog *ssa.Program, p *ssa.Package) []*ssa.Function {
 	var fns []*ssa.Function
 	seen := map[*ssa.Function]bool{}
@@ -980,6 +1180,12 @@ end PSA.Generated
 	// ---- F9: writes to state that outlives a request: through a method receiver, or into a package-level map / struct /
 	// sync primitive (F8 only sees a direct store to the variable itself)
 	var stateWrites []string
+	var modFns []*ssa.Function
+	for _, sp := range ssaBy {
+		if strings.HasPrefix(sp.Pkg.Path(), strings.TrimSuffix(mod, "/")) {
+			modFns = append(modFns, allFunctions(prog, sp)...)
+		}
+	}
 	for _, path := range []string{mod + "admission", mod + "cmd/webhook/server", mod + "api", mod + "policy", mod + "admission/api", mod + "admission/api/load", mod + "admission/api/validation"} {
 		p := ssaBy[path]
 		if p == nil {
@@ -1004,6 +1210,10 @@ end PSA.Generated
 					return o, true
 				}
 				if recv != "" && (strings.Contains(o, "param:"+recv+")") || strings.HasSuffix(o, "param:"+recv) || strings.Contains(o, "freevar:"+recv+")") || strings.HasSuffix(o, "freevar:"+recv)) {
+					if o == "param:"+recv && f == root && receiverStaysLocal(prog, root, modFns) {
+						// the receiver's own memory, and the receiver is always a variable of one activation of a caller
+						return o, false
+					}
 					return o, true
 				}
 				return o, false
